@@ -20,11 +20,15 @@ type c18case struct {
 	state  string // absent empty content dir symlink noparent readonlydir
 	target string // default relative nested absolute
 	env    string // a MOCKERY_* variable exported while init runs ("" = none)
+	above  string // name of another, valid configuration file in the PARENT directory of the module ("" = none)
 }
 
 func (cs c18case) id() string {
 	if cs.env != "" {
 		return fmt.Sprintf("pkg=%q state=%s target=%s env=%s", cs.name, cs.state, cs.target, cs.env)
+	}
+	if cs.above != "" {
+		return fmt.Sprintf("pkg=%q state=%s target=%s config-in-parent-dir=%s", cs.name, cs.state, cs.target, cs.above)
 	}
 	return fmt.Sprintf("pkg=%q state=%s target=%s", cs.name, cs.state, cs.target)
 }
@@ -47,29 +51,35 @@ func C18(c *core.Ctx) error {
 			cases = append(cases, cs)
 		}
 	}
-	add(c18case{c18pkg, "absent", "default", ""})
+	add(c18case{c18pkg, "absent", "default", "", ""})
+	// a configuration file further up the directory tree: the file init writes into the working directory is the
+	// nearest one, so the following plain run must use it
+	for _, ab := range []string{".mockery.yaml", ".mockery.yml"} {
+		add(c18case{c18pkg, "absent", "default", "", ab})
+		add(c18case{c18pkg, "content", "default", "", ab})
+	}
 	// the invoking shell's MOCKERY_* overrides are not "the documented defaults": the written file must not depend on them
 	for _, e := range []string{"MOCKERY_FILENAME=ci_mocks.go", "MOCKERY_RECURSIVE=true", "MOCKERY_LOG_LEVEL=debug", "MOCKERY_ALL=false", "MOCKERY_DIR=elsewhere", "MOCKERY_TEMPLATE=matryer",
 		"MOCKERY_FORMATTER=gofmt", "MOCKERY_PKGNAME=envpkg", "MOCKERY_STRUCTNAME=Env{{.InterfaceName}}", "MOCKERY_FORCE_FILE_WRITE=false", "MOCKERY_INCLUDE_INTERFACE_REGEX=Foo", "MOCKERY_REQUIRE_TEMPLATE_SCHEMA_EXISTS=false"} {
-		add(c18case{c18pkg, "absent", "default", e})
-		add(c18case{c18pkg, "content", "relative", e})
+		add(c18case{c18pkg, "absent", "default", e, ""})
+		add(c18case{c18pkg, "content", "relative", e, ""})
 	}
 	for _, n := range names {
-		add(c18case{n, "absent", "default", ""})
+		add(c18case{n, "absent", "default", "", ""})
 	}
 	for _, s := range states {
 		for _, t := range targets {
-			add(c18case{c18pkg, s, t, ""})
+			add(c18case{c18pkg, s, t, "", ""})
 		}
 	}
 	for _, n := range names {
-		add(c18case{n, "content", "default", ""})
+		add(c18case{n, "content", "default", "", ""})
 	}
 	if !core.Quick(c.Tier) {
 		for _, n := range names {
 			for _, s := range states {
 				for _, t := range targets {
-					add(c18case{n, s, t, ""})
+					add(c18case{n, s, t, "", ""})
 				}
 			}
 		}
@@ -90,8 +100,14 @@ func C18(c *core.Ctx) error {
 		}
 		cs := cases[i]
 		id := cs.id()
-		root := filepath.Join(c.Scratch, "w", fmt.Sprint(i))
-		defer os.RemoveAll(root)
+		base := filepath.Join(c.Scratch, "w", fmt.Sprint(i))
+		root := base
+		defer os.RemoveAll(base)
+		if cs.above != "" {
+			root = filepath.Join(base, "outer", "inner")
+			// valid, and about another package: if it were used, b would be mocked instead of the named package
+			core.Must(core.WriteTree(filepath.Join(base, "outer"), map[string]string{cs.above: "packages:\n  example.com/m/b:\n    config:\n      all: true\n"}))
+		}
 		core.Must(core.WriteTree(root, modFiles))
 		var target string // path as passed / absolute path
 		var args []string
